@@ -46,7 +46,7 @@ def _core(fx, col):
         r(fx, col)
 
 
-CORE_PROPS = ('C01', 'C02', 'C03', 'C04', 'C05', 'C06', 'C07', 'C10', 'C12', 'C14', 'C16', 'C17', 'C20')
+CORE_PROPS = ('C01', 'C02', 'C03', 'C04', 'C05', 'C06', 'C07', 'C10', 'C11', 'C12', 'C14', 'C16', 'C17', 'C20')
 
 
 def prop(pid, title, rules, explanation, not_decided, **kw):
@@ -172,7 +172,7 @@ def _usercall_inventory(fx, col):
 
 
 prop('C18', 'panics in user code leave the container consistent',
-     [_usercall_inventory, L.rule_ledger_unwind, T.rule_txn_closed, R.rule_fast_window, R.rule_cover_all],
+     [_usercall_inventory, L.rule_ledger_unwind, T.rule_txn_closed, R.rule_fast_window, R.rule_cover_all, R.rule_pay_before_release, L.rule_bypass],
      'Decides: the complete list of user-code call sites reachable from the API (trait methods on type parameters, closure '
      'parameters, drops of generic values, RefCnt::dec) and, for each, that no raw (non-RAII) reference count is held '
      'across it: the ledger evaluated along every unwind edge must reach `resume` with balance 0 (LEDGER-UNWIND; direct '
